@@ -45,7 +45,7 @@ UUIDS = [f"00000000-0000-4000-8000-00000000003{i}" for i in range(6)]
 
 
 def map_field(f, pspec):
-    if not pspec:
+    if not pspec or pspec.get("scope") == "net":
         return f
     if pspec.get("mapping") and f in MAPPING:
         f = MAPPING[f]
@@ -62,6 +62,9 @@ def pipeline_dict(pspec, with_post=True):
         items.append({"type": "field_name_mapping", "mapping": dict(MAPPING)})
     if pspec.get("prefix"):
         items.append({"type": "field_name_prefix", "prefix": "p."})
+    if pspec.get("scope"):  # every generated rule has category "proc": scope "proc" matches all, "net" none
+        for it in items:
+            it["rule_conditions"] = [{"type": "logsource", "category": pspec["scope"]}]
     d = {"transformations": items}
     if pspec.get("post") and with_post:
         d["postprocessing"] = [{"type": "embed", "prefix": "<P ", "suffix": " P>"}]
@@ -247,7 +250,24 @@ def check_case(case: dict) -> Outcome:
         got2 = per.get(corrs[1]["title"], [])
         if len(got2) != 1 or got[0] not in got2[0]:
             out.fail("C10:nested-correlation", f"{desc}: the outer correlation query does not embed the inner query verbatim")
+        else:
+            oc = corrs[1]["correlation"]
+            try:
+                otop = parse_brackets(got2[0])
+                oslots = node_dict(otop[0][1])
+                oagg = node_dict(oslots["agg"][0])
+                ogb = oc.get("group-by")
+                want_ogb = [("gbnone", "")] if ogb is None else [("gb", "".join("f⟦" + map_field(g, pspec) + "⟧" for g in ogb))]
+                if parse_brackets(oagg["groupby"][0]) != want_ogb:
+                    out.fail("C10:nested-correlation:group-by", f"{desc}: outer {oc}: group-by {oagg['groupby'][0]!r} expected {want_ogb}")
+                of = oc["condition"].get("field")
+                if of is not None and oagg["field"][0] != map_field(of, pspec):
+                    out.fail("C10:nested-correlation:condition-field", f"{desc}: outer {oc}: field {oagg['field'][0]!r} expected {map_field(of, pspec)!r}")
+            except (BracketError, AssertionError, KeyError, IndexError) as e:
+                out.fail("C10:nested-correlation:unparsable", f"{got2[0]!r}: {e!r}")
         out.label("nested")
+        if pspec and pspec.get("scope"):
+            out.label("nested+scoped-pipeline")
     return out
 
 
@@ -260,6 +280,8 @@ def cases(draw):
             "single": draw(st.booleans()), "finalize_sub": draw(st.booleans()), "fields": draw(st.booleans()),
             "normalization": True}
     pspec = draw(st.sampled_from([None, {"mapping": True}, {"mapping": True, "prefix": True, "post": True}, {"post": True}, {"prefix": True}]))
+    if pspec and draw(st.integers(0, 2)) == 0:
+        pspec = dict(pspec, scope=draw(st.sampled_from(["proc", "proc", "net"])))
     n = draw(st.integers(1, 4))
     rules = []
     for i in range(n):
@@ -318,7 +340,11 @@ def cases(draw):
             c["condition"]["percentile"] = draw(st.integers(1, 99))
     corrs = [{"title": "corr_main", "name": "cmain", "correlation": c}]
     if draw(st.integers(0, 3)) == 0:
-        corrs.append({"title": "corr_outer", "correlation": {"type": "event_count", "rules": ["cmain"], "timespan": "1h", "condition": {"gte": 2}}})
+        oc = {"type": "event_count", "rules": ["cmain"], "timespan": "1h", "condition": {"gte": 2}}
+        if draw(st.booleans()):
+            oc = {"type": "value_count", "rules": ["cmain"], "timespan": "1h", "group-by": draw(st.sampled_from([["user"], ["fa", "other"]])),
+                  "condition": {"gte": 2, "field": draw(st.sampled_from(["cnt", "account", "other"]))}}
+        corrs.append({"title": "corr_outer", "correlation": oc})
     return {"cfg": cfg, "ccfg": ccfg, "pipeline": pspec, "rules": rules, "corrs": corrs}
 
 
